@@ -5,7 +5,7 @@ runs on it unchanged."""
 import numpy as np
 import z3
 
-from .core import C, E, NUM, Inconclusive, Sym, SymBool, ite, uf_apply
+from .core import C, E, NUM, Inconclusive, PyNum, Sym, SymBool, ite, uf_apply
 
 _F64 = np.dtype('float64')
 
@@ -54,6 +54,8 @@ def lift(x, ld=None):
 
 def _weak(x):
     """python-scalar stand-in used for dtype promotion of a bare symbolic scalar"""
+    if isinstance(x, PyNum):
+        return 0j if isinstance(x, complex) else 0.0
     if isinstance(x, Sym):
         return 0.0 if x.im.is_zero() else 0j
     if isinstance(x, SymBool):
@@ -297,6 +299,9 @@ class SymArray(np.ndarray):
             elif isinstance(x, np.ndarray):
                 lds.append(x.dtype)
                 raw.append(x.astype(object) if x.dtype != object else x)
+            elif isinstance(x, PyNum):
+                lds.append(_weak(x))
+                raw.append(x.sym)
             elif isinstance(x, (Sym, SymBool)):
                 lds.append(_weak(x))
                 raw.append(x)
